@@ -20,6 +20,7 @@ inductive MSt where
   | fmt (s : FmtDrv.St)
   | names (s : NamesDrv.St)
   | std
+  | robust
 
 def stepLine (st : MSt) (line : String) : MSt × String :=
   let toks := (line.trimAscii.toString.splitOn " ").filter (· ≠ "")
@@ -33,6 +34,7 @@ def stepLine (st : MSt) (line : String) : MSt × String :=
     | "fmt" => (.fmt {}, hdr)
     | "names" => (.names {}, hdr)
     | "std" => (.std, hdr)
+    | "robust" => (.robust, hdr)
     | _ => (.none, hdr ++ " unknown-model")
   | ["END"] => (.none, "END")
   | _ =>
@@ -48,7 +50,12 @@ def stepLine (st : MSt) (line : String) : MSt × String :=
       match toks with
       | "STDRUN" :: _mode :: _target :: _how :: ls =>
         (st, String.join (ls.map (fun l => if l = "-" then "" else l)) |> fun x => if x.isEmpty then "-" else x)
+      -- a log call from within a Display implementation: the inner line first, then the outer one
+      -- (Fmt.emit: post-order), then the next record
+      | ["RECURSE", _mode, _target] => (st, Drv.textToHex "inner1\nouter x1\nplain\n".toList)
       | _ => (st, "bad-op")
+    -- robustness histories (C10): the only prediction is "the call returns"
+    | .robust => (st, "ok")
 
 partial def loop (hin : IO.FS.Stream) (hout : IO.FS.Stream) (st : MSt) : IO Unit := do
   let line ← hin.getLine
